@@ -230,6 +230,11 @@ func (f *frame) callFunc(fn *ssa.Function, bindings []*Val, args []*Val, res ssa
 			// generated clause function called from another clause (lemma hints): inline
 			return f.inlineCall(fn, bindings, args)
 		}
+		// a function of the contract file with a trusted pure contract is an uninterpreted symbol
+		// (executable wrapper around an external function)
+		if fc := f.e.contractFor(f.pkg, fn); fc != nil && fc.Trusted != "" && fc.Pure {
+			return f.callContract(fc, fn, args, pos)
+		}
 		return f.specCall(fn, args)
 	}
 	if fn.Name() == "As" && fn.Pkg != nil && (fn.Pkg.Pkg.Path() == "errors" || fn.Pkg.Pkg.Path() == "github.com/go-faster/errors") && len(args) == 2 {
